@@ -103,6 +103,7 @@ func genTreeScenario(seed uint64, o treeOpts) *Scenario {
 		var pre, body, post []Macro
 		hasStr := false
 		hasLong := false
+		creates := false
 		if o.journal && r.P(1, 3) {
 			// a long (40-byte) string journaled with the reference-change instruction: its data
 			// lives in the slots after the hash of the slot number
@@ -243,10 +244,12 @@ func genTreeScenario(seed uint64, o treeOpts) *Scenario {
 				val = hxu(uint64(r.Intn(60)))
 			}
 			if r.P(1, 5) {
-				val = "0xffffffffffffffff" // endowment nobody can pay: refused before any frame exists
+				// endowment nobody can pay: refused before any frame exists
+				val = pick(r, []string{"0xffffffffffffffff", "0x1000000000000002a", "0x30000000000000000000000000000000000000000000000007"})
 			}
 			cm := Macro{K: "create", Op: op, N: len(p.D) - 1, A: []string{val, hxu(uint64(r.Intn(2))), "0x300"}, Flag: "s:0x20"}
 			body = append(body, cm)
+			creates = true
 			if op == "CREATE2" && r.P(1, 3) {
 				body = append(body, cm) // second attempt at the same address: collision
 			}
@@ -283,6 +286,9 @@ func genTreeScenario(seed uint64, o treeOpts) *Scenario {
 		}
 		acc := Account{Addr: contractAddr(i), Balance: hxu(uint64(1000 + r.Intn(4000))), Nonce: 1, Code: p,
 			Storage: map[string]string{"0x1": "0x11", "0x9": "0x99"}}
+		if creates && r.P(1, 12) {
+			acc.Nonce = ^uint64(0) // creator at the nonce limit: every create is refused up front
+		}
 		if hasLong {
 			// distinct words around both candidate data positions (hash of the 32-byte slot and hash of
 			// its trimmed bytes), so that reading from a shifted position is visible in the journal
